@@ -7,6 +7,10 @@ def _extract(txt):
                        keep_head_until=r"^static void$", extra_lines=("#define TTX_EVENTS", "#define BSDATA_EVENTS"))
 
 
+def _extract_vbi(txt):
+    return c_functions(txt, ["vbi_chsw_reset", "vbi_reset_prog_info"])
+
+
 def obligations(tier, seed):
     H = dict(harness="h_c13.c", patch={"src/packet.c": _extract}, units=["src/hamm.c", "src/vps.c", "src/packet-830.c"], vin_size=128, flags=["--no-undefined-shift-check"],
              stubs=["struct caption and struct teletext carved out of vbi_decoder; packet.c reduced to the six announcement functions by textual extraction from the current source", "vbi_send_event: snapshot log", "vbi_chsw_reset (drops the old station's cache): call log",
@@ -31,8 +35,29 @@ def obligations(tier, seed):
            desc="parse_8_30/parse_bsd with packets 8/30 format 1 from a reference encoder over histories of K receptions of two arbitrary CNIs: NETWORK_ID at the second "
                 "consecutive identical reception only, NETWORK + cache drop exactly on station change, LOCAL_TIME event for every packet with exactly the transmitted MJD/UTC/offset",
            encodes=["parse_8_30", "parse_bsd", "unham_page_link", "vbi_decode_teletext_8301_local_time", "station_lookup"],
-           bounds="K receptions (3 quick, 5 thorough)", grid=[dict(KREC=kt, C13_LT_MODEL=1)], quick_grid=[dict(KREC=kq, C13_LT_MODEL=1)],
+           bounds="K receptions (3 quick, 5 thorough)", grid=[dict(KREC=kt, C13_LT_MODEL=1, EVMAX=12)], quick_grid=[dict(KREC=kq, C13_LT_MODEL=1)],   # K=5: up to 9 events (5 LOCAL_TIME + 2 x NETWORK/NETWORK_ID), the log holds 8 by default
            assumes=["CNI != 0", "C13_LT_MODEL: vbi_decode_teletext_8301_local_time replaced inside this translation unit by a model returning arbitrary logged values "
                     "(assume-guarantee with C12 p8301_*, which decides the codec over its full ranges); the event must carry exactly those values"],
            reach=["end", "announced"], timeout=900, mem_gb=6, **H),
+        Ob("p8302_debounce", func="h_8302_debounce", unwind=16,
+           desc="parse_8_30/parse_bsd with packets 8/30 format 2 whose 13 Hamming-protected bytes are two ARBITRARY blocks, over histories of K receptions: the packet is "
+                "accepted iff every protected byte is within distance 1 of a code word (independent decode); a damaged packet raises nothing and is invisible to the debounce; "
+                "over the clean receptions NETWORK_ID at the second consecutive identical CNI only (carrying exactly the transmitted CNI), NETWORK + cache drop exactly on "
+                "station change, PROG_ID for every clean packet with exactly the transmitted CNI/PIL/PTY",
+           encodes=["parse_8_30", "parse_bsd", "vbi_decode_teletext_8302_pdc", "station_lookup"],
+           bounds="K receptions (3 quick, 5 thorough), two symbolic 13-byte blocks, symbolic pattern and designation 2/3", grid=[dict(KREC=kt, EVMAX=12)], quick_grid=[dict(KREC=kq)],
+           assumes=["CNI != 0", "CNI != 0x0DC3 (parse_bsd applies the VPS ARD/ZDF rule to it; the property text documents that exception for VPS only - not claimed either way)"],
+           reach=["end", "announced", "damaged"], timeout=900, mem_gb=6, solver="cadical", **H),
+        Ob("chsw_wss", func="h_chsw_wss", unwind=16, defines={"C13_REAL_CHSW": 1},
+           desc="the REAL vbi_chsw_reset (extracted from the current vbi.c) from an arbitrary state of the WSS debouncer and aspect announcement, identified (nuid != 0) or not, "
+                "followed by every history of K WSS receptions of two arbitrary words: the decoder behaves exactly like a fresh one (same reference as wss_debounce: ASPECT only "
+                "after >= 3 identical repeats received on the NEW station); the reset itself raises a NETWORK event iff an identified station becomes unidentified and an ASPECT "
+                "event iff a ratio had been announced, releases the old cache network and attaches a new one",
+           encodes=["vbi_chsw_reset", "vbi_reset_prog_info", "vbi_decode_wss_625"], bounds="K receptions after the switch (5 quick, 7 thorough); wss_rep_ct < 1024",
+           grid=[dict(KREC=7)], quick_grid=[dict(KREC=5)],
+           assumes=["word != 00 00", "aspect_source in 0..2"], reach=["end", "announced", "identified", "unidentified"], timeout=900, mem_gb=6,
+           **dict(H, patch={"src/packet.c": _extract, "src/vbi.c": _extract_vbi},
+                  unwindset=dict(H["unwindset"], **{"vbi_reset_prog_info.0": 9, "vbi_reset_prog_info.1": 9}),
+                  stubs=H["stubs"][:2] + ["cache_network_unref/_vbi_cache_add_network: call log + fresh static network (C10 decides the cache side)",
+                                          "vbi_teletext_channel_switched/vbi_caption_channel_switched/vbi_trigger_flush: call counters", "pthread_mutex_lock/unlock: no-ops (single thread)"])),
     ]
